@@ -470,6 +470,7 @@ func isPublishCall(x ssa.CallInstruction, isPublish func(*ssa.Call) (ssa.Value, 
 func checkOnceSingle(p *Program, r *Report, rule string) {
 	inits := map[*pvar]map[*ssa.Function]string{}
 	unknown := map[*pvar]string{}
+	callerDep := map[*pvar]string{}
 	var order []*pvar
 	for _, f := range p.SrcFuncs() {
 		for _, b := range f.Blocks {
@@ -477,6 +478,17 @@ func checkOnceSingle(p *Program, r *Report, rule string) {
 				g, cl, ok := onceDoCall(in)
 				if !ok {
 					continue
+				}
+				// what a package-level Once builds is built once for the whole process: it may not
+				// depend on the arguments of whichever call happens to come first
+				if c, isCall := in.(*ssa.Call); isCall && len(c.Call.Args) > 0 {
+					if mc, isMC := c.Call.Args[len(c.Call.Args)-1].(*ssa.MakeClosure); isMC {
+						for _, bnd := range mc.Bindings {
+							if w := fromParameter(bnd, 0); w != "" {
+								callerDep[g] = fmt.Sprintf("the function handed to Do at %s captures %s of %s", p.InstrPos(in), w, shortFn(f))
+							}
+						}
+					}
 				}
 				if inits[g] == nil {
 					inits[g] = map[*ssa.Function]string{}
@@ -495,6 +507,10 @@ func checkOnceSingle(p *Program, r *Report, rule string) {
 		key := strings.TrimPrefix(g.String(), ModPath+"/") + " initialiser"
 		if w, bad := unknown[g]; bad {
 			r.Undecide(rule, key, w, "the function handed to Do is not a function literal or named function: which initialiser this Once guards cannot be determined")
+			continue
+		}
+		if w, bad := callerDep[g]; bad {
+			r.Violate(rule, key, p.Pos(g.Pos()), w+": the table is built from the arguments of the first call only, and every later caller — whatever it passes — is served that table")
 			continue
 		}
 		var names, sites []string
@@ -868,6 +884,7 @@ func runC11(p *Program, r *Report) {
 
 	checkOnceSingle(p, r, "C11.O2")
 	checkPublishLast(p, r, "C11.O5")
+	checkReadOnlyAccessors(p, r, "C11.O6")
 
 	// ---- O3 workers
 	nWorkers := 0
@@ -1019,4 +1036,107 @@ func rowInterval(e *Engine, cases []rowCase) (*Form, *Form) {
 		maxY = formInt(0)
 	}
 	return minY, maxY
+}
+
+// checkReadOnlyAccessors (O6): what the loaders hand out — a *meta.Data — may be
+// shared by the goroutines that asked for it. Its accessors (every method that is not
+// a Set…) read only: no store through the receiver, directly or in a module function
+// the receiver is passed to. An accessor that "remembers" a failure by rewriting the
+// record races with every other accessor and changes what they return (seed C11-P).
+func checkReadOnlyAccessors(p *Program, r *Report, rule string) {
+	var writesThroughParam func(f *ssa.Function, pi int, depth int) string
+	writesThroughParam = func(f *ssa.Function, pi int, depth int) string {
+		if f == nil || len(f.Blocks) == 0 || pi >= len(f.Params) || depth > 4 {
+			return ""
+		}
+		derived := map[ssa.Value]bool{f.Params[pi]: true}
+		for changed := true; changed; {
+			changed = false
+			for _, b := range f.Blocks {
+				for _, in := range b.Instrs {
+					v, ok := in.(ssa.Value)
+					if !ok || derived[v] {
+						continue
+					}
+					switch x := in.(type) {
+					case *ssa.FieldAddr:
+						if derived[x.X] {
+							derived[v], changed = true, true
+						}
+					case *ssa.IndexAddr:
+						if derived[x.X] {
+							derived[v], changed = true, true
+						}
+					case *ssa.Phi:
+						for _, e := range x.Edges {
+							if derived[e] {
+								derived[v], changed = true, true
+							}
+						}
+					}
+				}
+			}
+		}
+		for _, b := range f.Blocks {
+			for _, in := range b.Instrs {
+				switch x := in.(type) {
+				case *ssa.Store:
+					if derived[x.Addr] {
+						return fmt.Sprintf("%s stores through it at %s", shortFn(f), p.InstrPos(x))
+					}
+				case ssa.CallInstruction:
+					cf := staticCallee(x)
+					if cf == nil || !isPrismFn(cf) {
+						continue
+					}
+					for ai, a := range x.Common().Args {
+						if derived[a] {
+							if w := writesThroughParam(cf, ai, depth+1); w != "" {
+								return w
+							}
+						}
+					}
+				}
+			}
+		}
+		return ""
+	}
+	n := 0
+	for _, f := range p.SrcFuncs() {
+		if f.Parent() != nil || f.Signature.Recv() == nil || !namedIs(f.Signature.Recv().Type(), ModPath+"/meta", "Data") {
+			continue
+		}
+		if _, isPtr := f.Signature.Recv().Type().(*types.Pointer); !isPtr || strings.HasPrefix(f.Name(), "Set") || !token.IsExported(f.Name()) {
+			continue
+		}
+		n++
+		w := writesThroughParam(f, 0, 0)
+		r.Check(w == "", rule, shortFn(f), p.FnPos(f), "the accessor only reads the record it is called on", "the accessor writes to the shared record: "+w+" — concurrent callers race, and what the other accessors return changes under them")
+	}
+	r.Check(n > 0, rule, "metadata accessors are read-only", "-", fmt.Sprintf("%d accessors of *meta.Data examined", n), "no accessor of *meta.Data found")
+}
+
+// fromParameter: v is a parameter of its function, or a variable cell (a captured
+// local) into which a parameter is stored; returns a description or "".
+func fromParameter(v ssa.Value, depth int) string {
+	if depth > 4 {
+		return ""
+	}
+	switch x := v.(type) {
+	case *ssa.Parameter:
+		return "parameter " + x.Name()
+	case *ssa.Alloc:
+		for _, ref := range *x.Referrers() {
+			if st, ok := ref.(*ssa.Store); ok && st.Addr == ssa.Value(x) {
+				if w := fromParameter(st.Val, depth+1); w != "" {
+					return w
+				}
+			}
+		}
+	case *ssa.MakeInterface:
+		return fromParameter(x.X, depth+1)
+	case *ssa.ChangeType:
+		return fromParameter(x.X, depth+1)
+	}
+	return ""
 }
